@@ -145,7 +145,7 @@ CellSlots(c) == Max2(Len(c.lines), CellHeight(c))
 \* display width used to lay out line j of a cell: a single-line item that declares
 \* its width is laid out as exactly that wide; otherwise the line's own measure
 RECURSIVE DeclaresWidth(_)
-DeclaresWidth(d) == IF d.k = "cell" THEN DeclaresWidth(d.inner) ELSE HasCap(d, "Width")
+DeclaresWidth(d) == IF d.k = "cell" THEN DeclaresWidth(d.inner) ELSE d.k = "cellptr" \/ HasCap(d, "Width")
 LineW(c, j) == IF Len(c.lines) = 1 /\ DeclaresWidth(c.snap) THEN CellWidth(c) ELSE c.lines[j][2]
 
 \* is the library's width measure additive for this text line between spaces (logged by the driver)?
@@ -377,7 +377,7 @@ ColSkip(T, n) == SkipOf(MapGet(T.cols[n + 1].props, "k_skip"))
 EffSkip(T, i) == IF ColSkip(T, i) # "unset" THEN ColSkip(T, i) = "T" ELSE ColSkip(T, 0) = "T"
 
 RECURSIVE TextEncOf(_)
-TextEncOf(d) == CASE d.k = "nil" -> "\"\"" [] d.k = "cell" -> TextEncOf(d.inner) [] OTHER -> d.txe[TextSel(d)]
+TextEncOf(d) == CASE d.k = "nil" -> "\"\"" [] d.k \in {"cell", "cellptr"} -> TextEncOf(d.inner) [] OTHER -> d.txe[TextSel(d)]
 
 \* the JSON value of a cell: the encoding of its item, or of its non-empty text when
 \* the item encodes as an empty object
